@@ -38,6 +38,9 @@ func runC09(c *Check, tier string) {
 	ruleGlobPatternNotComposed(c, "R09m")
 	// round 7: the key is a function of the (path, content) pairs, not of the multiset of contents
 	ruleContentDigestsNotSorted(c, "R09n")
+	ruleRecordEntriesNotFromCompletionOrder(c, "R09o")
+	ruleInputsFilteredByExclusionsOnly(c, "R09p")
+	ruleScalarsNotReRendered(c, "R09q")
 }
 
 // R09f: every listed input file contributes its content — the loop that streams the input files into the
